@@ -23,7 +23,10 @@ class OutOfRangeEnum(Enum):
 
     @classmethod
     def _missing_(cls, value: object):
-        if not isinstance(value, int):
+        if isinstance(value, np.integer):
+            # values taken out of a NumPy array
+            value = int(value)
+        elif not isinstance(value, int):
             return None
 
         obj = object.__new__(cls)
